@@ -425,6 +425,15 @@ async def c04_pairings(ctx, cells) -> None:
         ctx.case("ble", op, repr(err), st, extra, sample={"transport": "ble", "op": op, "error": err, "state": st, "extra_fields": extra}, kind="ble-" + op)
         desc = f"ble {op}_pairing reply error={None if err is None else err.hex() or '<empty>'} state={st} extra={extra}"
         try:
+            if idx % 2:
+                # the SETTLED state of a session: some operation has already run on it (per-object state such as a pending
+                # restore-after-reconnect is gone) before the pairing is changed
+                try:
+                    await asyncio.wait_for(w.pairing.get_characteristics([(1, 11)]), 120)
+                    ctx.count("ble_pairings_cells_on_settled_session")
+                except Exception as ex:  # noqa: BLE001
+                    ctx.mark_inconclusive(f"C04 BLE harness: warm-up read failed: {ex!r}")
+                    continue
             try:
                 if op == "add":
                     res = await asyncio.wait_for(w.pairing.add_pairing("other-controller", "11" * 32, "User"), 120)
